@@ -73,6 +73,12 @@ def structure(prots, missed, tmp):
     from mokapot.parsers.fasta import read_fasta
 
     path = Path(tmp) / "db.fasta"
+    # history: another database was read from the same path before (per-path state must not leak)
+    path.write_text(">OLD1 x\nQQQQQQQK\n>OLD2 x\nWWWWWWWKQQQQQQQK\n")
+    try:
+        read_fasta(str(path), min_length=6)
+    except Exception:  # noqa: BLE001
+        pass
     path.write_text("".join(f">{n} desc\n{s}\n" for n, s in prots))
     p = read_fasta(str(path), enzyme="[KR]", missed_cleavages=missed, min_length=6, max_length=50, decoy_prefix=PREFIX)
     groups_of = {}
